@@ -24,6 +24,9 @@ pub struct Direct {
     pub alpha: f64,
     pub beta: f64,
     pub volume: f64,
+    /// 0 = mel-cepstral; 1.. = LSP (gamma = -1/stage): the spectrum rows are then gain + increasing line spectral frequencies
+    pub stage: usize,
+    pub log_gain: bool,
     pub spectrum: Vec<Vec<f64>>,
     pub lf0: Vec<Vec<f64>>,
     pub lpf: Vec<Vec<f64>>,
@@ -36,11 +39,19 @@ impl Direct {
         let nlpf = *rng.pick(&[1usize, 3, 5]);
         let rate = *rng.pick(&[8000usize, 16000, 48000]);
         let voiced_all = rng.chance(0.3);
+        // every third generator renders through the LSP filter family (seeded change C02j: the LSP branch rendered as many
+        // samples as the caller's buffer holds, so a step with a buffer longer than one frame ran the filter too far)
+        let stage = if rng.below(3) == 0 { rng.range(1, 3) } else { 0 };
+        let log_gain = stage > 0 && rng.chance(0.5);
         let spectrum = (0..n)
             .map(|_| {
-                (0..nmcp)
-                    .map(|k| if k == 0 { rng.uniform(-1.0, 2.0) } else { rng.uniform(-0.3, 0.3) })
-                    .collect()
+                if stage == 0 {
+                    (0..nmcp).map(|k| if k == 0 { rng.uniform(-1.0, 2.0) } else { rng.uniform(-0.3, 0.3) }).collect()
+                } else {
+                    let mut v = vec![if log_gain { rng.uniform(-1.0, 1.0) } else { rng.uniform(0.3, 3.0) }];
+                    v.extend(crate::voc::random_lsp(rng, nmcp - 1));
+                    v
+                }
             })
             .collect();
         let lf0 = (0..n)
@@ -67,6 +78,8 @@ impl Direct {
             alpha: *rng.pick(&[0.0, 0.42, 0.55]),
             beta: *rng.pick(&[0.0, 0.0, 0.3]),
             volume: 1.0,
+            stage,
+            log_gain,
             spectrum,
             lf0,
             lpf,
@@ -74,7 +87,7 @@ impl Direct {
     }
     pub fn generator(&self) -> SpeechGenerator {
         let v = Vocoder::new(
-            self.nmcp, self.nlpf, 0, false, self.rate, self.alpha, self.beta, self.volume, self.fperiod,
+            self.nmcp, self.nlpf, self.stage, self.log_gain, self.rate, self.alpha, self.beta, self.volume, self.fperiod,
         );
         SpeechGenerator::new(self.fperiod, v, self.spectrum.clone(), self.lf0.clone(), self.lpf.clone())
     }
